@@ -35,6 +35,7 @@ import signal
 import time
 from concurrent.futures import ThreadPoolExecutor
 from decimal import Decimal
+from fractions import Fraction
 
 from .. import core, tla
 from ..xmlbind import Doc
@@ -57,7 +58,7 @@ TIERS = {
                   xml=[('N3', dict(N=3, Kinds={"ea", "eb", "t", "c", "p", "xa", "xc"}, RootCfg="R1"))]),
     'thorough': dict(strings=[('all3', dict(MaxLen=3, FormMode='all', Pols=set())),
                               ('pol3', dict(MaxLen=3, FormMode='policy', Pols={'canon', 'min', 'U', 'l', 'py'})),
-                              ('pol4', dict(MaxLen=4, FormMode='policy', Pols={'canon', 'U'}, _replay_pols=('canon',)))],
+                              ('pol4', dict(MaxLen=4, FormMode='policy', Pols={'canon', 'U'}))],
                      model=dict(Universe='thorough', MaxDepth=8),
                      xml=[('N3', dict(N=3, Kinds={"ea", "eb", "t", "c", "p", "xa", "xc"}, RootCfg="R1")),
                           ('N4', dict(N=4, Kinds={"ea", "eb", "t", "c", "p", "xa", "xc"}, RootCfg="R1"))]),
@@ -632,16 +633,22 @@ def run_strings(chk: core.Check, name: str, consts: dict, r, dot: str) -> list:
 
 # ---------------------------------------------------------------------------------------------
 # JsonModel: edges
-def xv_flags(v, f: dict):
+def xv_flags(v, f: dict, member: bool = False):
+    """features of an XDM source value: xs:decimal with more than two fraction digits; xs:decimal that is
+    not exactly an xs:double (denominator not a power of two) as a member of an array / map"""
     t = v['t']
-    if t == 'num' and v['ty'] == 'dec' and v['e'] < -2:
-        f['dec_long'] = True
+    if t == 'num' and v['ty'] == 'dec':
+        if v['e'] < -2:
+            f['dec_long'] = True
+        den = Fraction(numd(v['m'], v['e'])).denominator
+        if member and den & (den - 1):
+            f['dec_nondyadic_member'] = True
     elif t == 'arr':
         for x in v['items']:
-            xv_flags(x, f)
+            xv_flags(x, f, True)
     elif t == 'map':
         for x in dict(v['o']).values():
-            xv_flags(x, f)
+            xv_flags(x, f, True)
 
 
 def model_evals(g) -> tuple:
@@ -662,6 +669,12 @@ def model_evals(g) -> tuple:
                 oracle_bad.append((text, canon_av(st['abs']), py))
     if oracle_bad:
         raise tla.MachineryError(f'spec/JsonModel disagrees with python json (first member wins) on {oracle_bad[:3]}')
+    # anti-vacuity: every action fired, errors and both kinds of lossy step were reached
+    acts = {a for _, _, a, _ in g.edges}
+    reps = {(st['rep'], tuple(sorted(st['loss']))) for st in g.states.values()}
+    need = {('err', ()), ('xdm', ('repl',)), ('xdm', ('last',)), ('xml', ()), ('text', ())}
+    if acts != {'Serialize', 'ParseJson', 'JsonToXml', 'XmlToJson'} or not need <= reps:
+        raise tla.MachineryError(f'JsonModel graph is vacuous: actions {sorted(acts)}, missing state kinds {sorted(need - reps)}')
     for sid, st in g.states.items():
         rep = st['rep']
         for (d, act, args) in out[sid]:
@@ -672,7 +685,7 @@ def model_evals(g) -> tuple:
                 ctor = render_xv(st['val'], variables)
                 exp = canon_av(dst['abs'])
                 fl = flags_of(exp)
-                fl['dec_long'] = False
+                fl['dec_long'] = fl['dec_nondyadic_member'] = False
                 xv_flags(st['val'], fl)
                 if st['val']['t'] in ('arr', 'map'):
                     nontrivial += 1
@@ -1008,8 +1021,8 @@ def run(chk: core.Check) -> None:
             print(f'  JsonModel: states={r.distinct} edges={n_edges} evaluations={len(evs)} tlc={r.wall_s:.1f}s', flush=True)
         else:
             done = load_nodes(dot, ('phase = \\"done\\"',))
-            if not done:
-                raise tla.MachineryError('XmlRoundTrip: no done states')
+            if not done or not {0, 1} <= {s['ctx'] for s in done} or max(s['ctx'] for s in done) < 2:
+                raise tla.MachineryError('XmlRoundTrip: no done states for document / root / inner context nodes')
             for s in done:
                 for lib in ('etree', 'lxml'):
                     for variant in ('plain', 'ns', 'markup'):
@@ -1042,7 +1055,7 @@ def run(chk: core.Check) -> None:
         chk.add('evaluations', n)
         for feat, case, exp, obs in fails:
             chk.fail(feat, case, exp, obs, what=f"{feat['law']} tree={case['kind']} ctx={case['ctx']} {case['lib']}")
-    chk.coverage['exhaustive'] = True
+    chk.coverage['exhaustive'] = not any('_replay_pols' in c for _, c in tier['strings'])
     chk.coverage['rule'] = ('JsonString: every (source string, rendering) of the escaped states is one trace; JsonModel: every edge '
                             'of the TLC graph is one case (source state rendered from the spec); XmlRoundTrip: every '
                             '(tree, context node) behaviour is one case x {xml.etree, lxml} x {document, element root} x '
